@@ -24,7 +24,7 @@ POOL = ('Water', 'Ethanol', 'Methanol', 'Propanol', 'Butanol', 'Glycerol', 'Octa
 
 
 def required(tier):
-    return ['read', 'write', 'group-write', 'flood', 'evictions:chemicals-cache', 'evictions:material-cache', 'mix-interleaved', 'read:multi-phase', 'names-one-position', 'fresh-twin']
+    return ['read', 'write', 'group-write', 'flood', 'evictions:chemicals-cache', 'evictions:material-cache', 'mix-interleaved', 'read:multi-phase', 'names-one-position', 'fresh-twin', 'expand']
 
 
 class Setup:
@@ -342,12 +342,47 @@ def run_case(case, rec):
                 rec.exception('mix-interleaved', e, what=f'cross-package mixing / lookup by CAS tuple raised {type(e).__name__}: {str(e)[:150]}')
                 D1[:] = dense_of(st.imol)
             p_chem.look(); p_mat.look()
+        elif t == 'expand':
+            # in-place phase expansion of the multi-phase indexer (mixing in a stream whose phase it lacks): rows are re-ordered,
+            # so every phase-keyed lookup made before must be re-resolved
+            cand = [q for q in 'gslSL' if q not in mphases]
+            if not cand: continue
+            ph = rng.choice(cand)
+            oth = tmo.Stream(None, phase=ph, thermo=S.thermo)
+            vals = {}
+            for i in ids:
+                if rng.random() < 0.7: v = round(10 ** rng.uniform(-1, 2), 3); oth.imol[i] = v; vals[i] = v
+            if not vals: oth.imol[ids[0]] = 1.5; vals[ids[0]] = 1.5
+            old = {q: D2[k].copy() for k, q in enumerate(mphases)}
+            try:
+                ms.mix_from([ms, oth], energy_balance=False)
+            except Exception as e:
+                rec.exception('expand', e, what=f'mixing a {ph!r} stream into phases {mphases} raised {type(e).__name__}: {str(e)[:120]}'); continue
+            newph = list(ms.phases)
+            lab = ph if ph in newph else (ph.lower() if ph.isupper() else ph.upper())
+            D2 = np.zeros((len(newph), n))
+            for q, row in old.items(): D2[newph.index(q)] = row
+            for i, v in vals.items(): D2[newph.index(lab), S.pos[i]] += v
+            mphases = newph
+            p_mat = Probe(ms.imol._index_cache)
+            rec.check(same(dense_of(ms.imol), D2, rel=1e-12), 'expand', 'data', f'after mixing a {ph!r} stream into a multi-phase stream the data is {dense_of(ms.imol).tolist()} but the model gives {D2.tolist()}')
+            rec.hit('expand')
+            # phase-keyed reads (previously cached keys included) and a write-then-read
+            for q in mphases:
+                for key in (ids[0], list(ids[:2]) if n >= 2 else ids[0], '...'):
+                    check_read_multi(key, False, 'phase', q, 'expand')
+            q = rng.choice(mphases); i = rng.choice(ids); v = round(10 ** rng.uniform(-1, 2), 3)
+            try:
+                ms.imol[q, i] = v; D2[mphases.index(q), S.pos[i]] = v
+                rec.check(same(dense_of(ms.imol), D2, rel=1e-12), 'expand', 'write-after-expansion', f'after expansion, imol[{q!r},{i!r}] = {v} changed other entries: {dense_of(ms.imol).tolist()} vs model {D2.tolist()}')
+            except Exception as e:
+                rec.exception('expand', e, what=f'write after expansion raised {type(e).__name__}: {str(e)[:120]}'); D2[:] = dense_of(ms.imol)
         elif t == 'twin':
             # brand-new compiled chemicals and indexers that have seen no other key
             T = Setup(ids, groups)
             tst = tmo.Stream(None, thermo=T.thermo); tst.imol.data[:] = D1
-            tms = tmo.MultiStream(None, phases=tuple(phases), thermo=T.thermo)
-            for i in range(len(mphases)): tms.imol.data.rows[i][:] = D2[i]
+            tms = tmo.MultiStream(None, phases=tuple(mphases), thermo=T.thermo)
+            for i, q in enumerate(tms.phases): tms.imol.data.rows[i][:] = D2[mphases.index(q)]
             for _ in range(op['n']):
                 key = gen_key(rng, S); k = to_key(key)
                 try:
@@ -369,8 +404,8 @@ def gen_case(rng, tier, big):
     phases = rng.choice(['lg', 'lgs', 'lL', 'gls', 'sl', 'glLs'])
     ops = [{'t': 'names'}]
     for _ in range(rng.randrange(3, 8)):
-        t = rng.choices(['reads', 'writes', 'mix', 'twin'], [4, 4, 2, 1])[0]
-        ops.append({'t': t, 'n': rng.randrange(3, 25)} if t != 'mix' else {'t': 'mix'})
+        t = rng.choices(['reads', 'writes', 'mix', 'twin', 'expand'], [4, 4, 2, 1, 1.5])[0]
+        ops.append({'t': t, 'n': rng.randrange(3, 25)} if t not in ('mix', 'expand') else {'t': t})
     if big and len(ids) >= 5:
         nflood = 700 if tier == 'quick' else 3000
         ops.insert(rng.randrange(1, len(ops)), {'t': 'flood', 'tgt': 'S', 'n': nflood})
